@@ -269,11 +269,11 @@ def init_search(rep, mir, L, prefix='C07.6'):
                     e = A.fresh('E_trial_%d' % ntr); end = Ref(m2.alloc(Struct((e,), 'AbsState')))
                     for (m3, k3, v3) in list(vm.exec_fn(m2, reg, [a[7], a[1], a[2], end, NONE()])):
                         if k3 != 'ret': outs.append((m3, k3, v3)); continue
-                        m3.log('events', ('trial', 'ok', a[3].name, eps_now.v, e.v)); outs.append((m3, 'ret', Enum(0, 'Ok', (end,), 'LeapfrogResult')))
+                        m3.log('events', ('trial', 'ok', a[3].name, eps_now.v, e.v, a[4].v, a[5].v)); outs.append((m3, 'ret', Enum(0, 'Ok', (end,), 'LeapfrogResult')))
                 elif kd == 'div':
-                    m2.log('events', ('trial', 'div', a[3].name, eps_now.v, None)); outs.append((m2, 'ret', Enum(1, 'Divergence', (Struct((), 'DivergenceInfo'),), 'LeapfrogResult')))
+                    m2.log('events', ('trial', 'div', a[3].name, eps_now.v, None, a[4].v, a[5].v)); outs.append((m2, 'ret', Enum(1, 'Divergence', (Struct((), 'DivergenceInfo'),), 'LeapfrogResult')))
                 else:
-                    m2.log('events', ('trial', 'err', a[3].name, eps_now.v, None)); outs.append((m2, 'ret', Enum(2, 'Err', (Struct(('unrec',), 'LogpErrOracle'),), 'LeapfrogResult')))
+                    m2.log('events', ('trial', 'err', a[3].name, eps_now.v, None, a[4].v, a[5].v)); outs.append((m2, 'ret', Enum(2, 'Err', (Struct(('unrec',), 'LogpErrOracle'),), 'LeapfrogResult')))
             return outs
         vm.add_model(r' as Hamiltonian<M>>::leapfrog::<AcceptanceRateCollector>$', leapfrog)
         vm.add_model(r'^State::<M, P>::energy$', lambda vm, m, c, a: ret(m, deref_state(vm, m, a[0]).f[0]))
@@ -301,6 +301,10 @@ def init_search(rep, mir, L, prefix='C07.6'):
                 sol.push(); sol.add(step != z3.Real('fixed_val')); r = sol.check(); sol.pop()
                 if r != z3.unsat or trials: results['bad'].setdefault('fixed', ('Fixed step size not installed / search run for a fixed step size', where))
                 results['kinds'].add('fixed'); continue
+            # every trial is one full-size step from the start state, measured against the start state's energy
+            if trials:
+                sol.push(); sol.add(z3.Or(*[z3.Or(t[5] != 1, t[6] != z3.Real('E_start')) for t in trials])); r = sol.check(); sol.pop()
+                if r != z3.unsat: results['bad'].setdefault('trial_args', ('a trial step of the search is not taken with step_size_factor = 1 and the start state\'s energy as baseline (the acceptance it measures is not that of the step size being tested)', where))
             if trials and trials[-1][1] != 'ok':
                 results['kinds'].add('faulty_trial')
                 sol.push(); sol.add(step != init_step.v); r = sol.check(); sol.pop()
